@@ -150,7 +150,7 @@ fn arb_history(mode: Mode, tier: Tier) -> BoxedStrategy<History> {
         Mode::Capacity => tier.pick(14, 40),
     };
     let tid = match mode {
-        Mode::Capacity => prop_oneof![2 => 0..NFIXED, 5 => Just(TID_D), 6 => Just(TID_A)].boxed(),
+        Mode::Capacity => prop_oneof![2 => (0usize..17).prop_map(|i| FIXED_TIDS[i]), 5 => Just(TID_D), 6 => Just(TID_A)].boxed(),
         _ => arb_tid().boxed(),
     };
     (tid, arb_init(), vec(arb_op(mode, tier), 1..maxops)).prop_map(|(ty, init, ops)| History { ty, init, ops }).boxed()
@@ -249,7 +249,7 @@ impl Property for C03 {
         "Cases (stateful): subject type, an initial constructor (zeros, ones, repeat, any operand provenance incl. from_binary/push/collect/conversion/read-with-surplus-bits/spare capacity, from_hex, from_bytes, From<uN>, from slice, with_capacity) and a sequence of 1..12 (quick)/1..40 (thorough) operations drawn from the whole public API: edits (push, pop, set, resize, truncate, sign_extend, append/prepend/insert with an operand of any type, extend, collect, split_off keeping either half, copy_range), shifts by each integer type, shl_in/shr_in, rotations, !, the eight binary operators in a generated form with an operand of any zoo type / native type / length / provenance, reserve, shrink_to_fit, round trip through another implementation, write->read, format->parse, clone. Oracle: the bit-list model advanced by the reference semantics of each op; after EVERY step the light observer battery (all raw-storage readers: is_zero, to_vec, hex, ==/cmp/hash against a fresh vector) and periodically / at padding-risk steps / at the end the full battery; at the end every growing operation (resize Zero/One, push, append, sign_extend, extend) is applied to a clone and must expose only the requested fill bits. Non-trivial: >= 2 state-changing steps and >= 1 padding-risk step (logic/arithmetic with an RHS longer than the subject or of another type; shift/rotate/! at a length that is not a storage-word multiple). Distinct by hash of the history.".into()
     }
     fn random_cases(&self, tier: Tier) -> u64 {
-        tier.pick(120_000, 600_000)
+        tier.pick(120000, 4800000)
     }
     fn strategy(&self, tier: Tier) -> BoxedStrategy<History> {
         arb_history(Mode::All, tier)
@@ -279,13 +279,13 @@ impl Property for C07 {
         "Cases (stateful): subject type, initial constructor, then 1..15 (quick)/1..50 (thorough) editing operations: push, pop, set, resize up/down, truncate (also beyond the length), sign_extend (also below the length), append/prepend/insert with an operand of ANY zoo type, length (0 included) and provenance, extend from iterators with exact / zero / partial size hints, collect. For Bvd/Bv the length wanders across 64-bit word boundaries and the 128-bit inline limit in both directions. Oracle: Vec<bool> edits; after each step exact length, bits and the light battery, full battery periodically and at the end; pop's return value. Non-trivial: >= 1 growth crossing a storage-word or inline/heap boundary, >= 1 shrink, and >= 1 append/prepend/insert whose operand type differs from the subject's. Distinct by hash of the history.".into()
     }
     fn random_cases(&self, tier: Tier) -> u64 {
-        tier.pick(120_000, 600_000)
+        tier.pick(120000, 4800000)
     }
     fn strategy(&self, tier: Tier) -> BoxedStrategy<History> {
         arb_history(Mode::Edits, tier)
     }
     fn exhaustive_subspaces(&self, _tier: Tier) -> Vec<String> {
-        vec!["unbounded growth: Bvd and Bv grown from {0,1,64,127,128,129,200} to {4095,4096,4097,65539} bits by resize(0|1)/append/prepend/insert/extend, then push/set/pop/resize/sign_extend/truncate back down".into(), "append / prepend / insert-at-{0,mid,len} of every operand length 0..=min(room,70) of 4 operand types onto every subject length 0..=min(C,140) for all 18 subject types (single-step histories)".into()]
+        vec!["unbounded growth: Bvd and Bv grown from {0,1,64,127,128,129,200} to {4095,4096,4097,65539} bits by resize(0|1)/append/prepend/insert/extend, then push/set/pop/resize/sign_extend/truncate back down".into(), "append / prepend / insert-at-{0,mid,len} of every operand length 0..=min(room,70) of 4 operand types onto every subject length 0..=min(C,140) for all 19 subject types (single-step histories)".into()]
     }
     fn enumerate(&self, _tier: Tier, sh: &mut Shard, f: &mut dyn FnMut(History) -> bool) {
         for ty in 0..NT {
@@ -352,7 +352,7 @@ impl Property for C18 {
         "Cases (stateful; Bvd and Bv favoured, fixed types included for len<=capacity): with_capacity(c) / other constructors, then reserve(k<=4096) and shrink_to_fit interleaved with the whole operation alphabet of C03, lengths crossing 64-bit boundaries and the inline limit both ways. Invariants after every step: len<=capacity; with_capacity(c) gives an empty vector with capacity>=c; reserve(k) leaves the battery unchanged, capacity>=len+k; shrink_to_fit leaves the battery unchanged and capacity <= that of a freshly constructed vector of the same length; no operation on Bvd/Bv panics or errs for lack of room; the model battery after every step (arithmetic after reserve shows here). Capacity after arithmetic and the storage mode of Bv are not asserted. Non-trivial: a reserve/shrink_to_fit followed by >= 1 mutating operation, and the length crossed a storage-word or the inline boundary in both directions. Distinct by hash of the history.".into()
     }
     fn random_cases(&self, tier: Tier) -> u64 {
-        tier.pick(120_000, 600_000)
+        tier.pick(120000, 4800000)
     }
     fn strategy(&self, tier: Tier) -> BoxedStrategy<History> {
         arb_history(Mode::Capacity, tier)
@@ -394,7 +394,7 @@ impl Property for C18 {
         if let Init::WithCapacity(c) = &h.init {
             let c = (*c).min(fixed_cap(h.ty).unwrap_or(usize::MAX));
             let (z, m) = init(h.ty, &h.init)?;
-            if !m.is_empty() || z.len() != 0 || (h.ty >= NFIXED && z.capacity() < c) {
+            if !m.is_empty() || z.len() != 0 || (!is_fixed(h.ty) && z.capacity() < c) {
                 return Err(Violation { sig: "with_capacity".into(), msg: format!("{}::with_capacity({}) gave len {} capacity {}", NAMES[h.ty as usize], c, z.len(), z.capacity()) });
             }
             st.class("with_capacity init");
